@@ -243,6 +243,42 @@ def extend_siblings(ck, P):
             ck.decide(ok2, R, "inflate:update_checksum", "update_checksum = wrap & 4 != 0", "update_checksum is %s" % mir.fmt(a[3], inf)[:80], where(inf, cs[0].line))
 
 
+def sync_commit(ck, P, R="ORDER/sync-commit"):
+    """inflateSync changes what the decoder verifies (it clears the check bit of `wrap`, resets the stream) only once it has
+    found the marker.  On a call that does not find it, nothing but the search state and the input cursor moves: the stream
+    still verifies its trailer when it is later reset and reused."""
+    fn = P.fn(Z + "inflate::sync")
+    if not ck.anchor("fn inflate::sync", fn):
+        return
+    ck.use_fn(fn)
+    fail = set()
+    for b in fn.live:
+        if fn.blocks[b]["t"]["k"] != "switch":
+            continue
+        for lab, tb in fn.succ[b]:
+            if lab is None or lab[0] == "const":
+                continue
+            for a in fn.edge_atoms(b, lab):
+                g = sig.sig(a, fn)
+                if g.rel == "Ne" and "have" in g.names and 4 in g.consts:
+                    fail.add(tb)
+    if not ck.anchor("`have != 4` verdict in inflate::sync", bool(fail)):
+        return
+    allowed = {"mode", "have", "next_in", "avail_in", "total_in", "bit_buffer", "bits_used", "bit_reader"}
+    bad = []
+    for bi, fp, root, rv, st in fn.field_writes():
+        if bi not in fn.live or not fp:
+            continue
+        if str(fp[-1]) in allowed or any(str(x) in ("bit_reader",) for x in fp):
+            continue
+        if bi in fail or flow.reaches_avoiding(fn, [bi], fail):
+            bad.append((str(fp[-1]), st.get("line") if isinstance(st, dict) else None))
+    calls_before = [c for c in fn.live_calls(r"inflate::reset(_keep)?$") if flow.reaches_avoiding(fn, [c.bb], fail)]
+    ck.decide(not bad and not calls_before, R, "sync:before-verdict", "only the search state and the cursor change before the marker is found",
+              "inflate::sync stores %s (or resets the stream) on paths that can still end in Z_DATA_ERROR: a failed inflateSync then changes what "
+              "the stream verifies afterwards" % sorted({b[0] for b in bad}), where(fn, bad[0][1] if bad else None))
+
+
 def wrap_who(ck, P):
     R = "WHO/wrap-bit2"
     allowed = {Z + "inflate::validate": "documented opt-out (inflateValidate)", Z + "inflate::sync": "no point in checking after a resync (zlib)",
@@ -314,6 +350,7 @@ def run(ck):
     _g.crc_fold_start(ck, P)
     extend_siblings(ck, P)
     wrap_who(ck, P)
+    sync_commit(ck, P)
     checksum_update_guard(ck, P)
     # the trailer arms hand over to Done/Bad only after their last input request
     from . import c04
